@@ -87,9 +87,12 @@ func (o *operations) Done() {
 	enqueued := o.tryEnqueue(func() {
 		wg.Done()
 	})
+	busyCh := o.busyCh
 	o.mu.Unlock()
 	verifYield("ops.Done.enqueued", o)
 	if !enqueued {
+		o.waitIdle(busyCh)
+
 		return
 	}
 	wg.Wait()
@@ -113,10 +116,19 @@ func (o *operations) GracefulClose() {
 	busyCh := o.busyCh
 	o.mu.Unlock()
 	verifYield("ops.GracefulClose.marked", o)
-	if busyCh == nil {
-		return
+	o.waitIdle(busyCh)
+}
+
+// waitIdle blocks until no worker is running. A worker that finds items
+// enqueued while it was finishing hands over to a new one, so keep waiting
+// until there is none.
+func (o *operations) waitIdle(busyCh chan struct{}) {
+	for busyCh != nil {
+		<-busyCh
+		o.mu.Lock()
+		busyCh = o.busyCh
+		o.mu.Unlock()
 	}
-	<-busyCh
 }
 
 func (o *operations) pop() func() {
@@ -144,7 +156,7 @@ func (o *operations) start() {
 		// this wil lbe the most recent busy chan
 		close(o.busyCh)
 
-		if o.ops.Len() == 0 || o.isClosed {
+		if o.ops.Len() == 0 {
 			o.busyCh = nil
 
 			return
